@@ -99,38 +99,32 @@ def check(ctx, rep):
             rep.bad('R17.a', key + '|missing', '%s not found' % uname)
             continue
         u = us[0]
-        oks = [s for bb, i, s in u.stmts('assign') if s['rv']['k'] == 'agg' and s['rv'].get('adt') == 'core::result::Result' and s['rv']['variant'] == 'Ok']
-        errs = [s for bb, i, s in u.stmts('assign') if s['rv']['k'] == 'agg' and s['rv'].get('adt') == 'core::result::Result' and s['rv']['variant'] == 'Err']
-        good = len(oks) == 1 and len(errs) == 1
-        comp_ok = False
-        if good:
-            # every leaf of the Ok value comes from `response as <variant>` fields
-            leaves = []
+        # what the function returns: the Ok payload and the Err payload of the return place (aggregates built on the way, `?` and
+        # spliced helpers are followed by the provenance walk)
+        leaves = []
 
-            def collect(op):
-                os = origins(u, op, extra_identity=INTO)
-                for o in os:
-                    if o.kind == 'agg' and o.stmt['rv'].get('ak') == 'tuple':
-                        for x in o.stmt['rv']['ops']:
-                            collect(x)
-                    else:
-                        leaves.append(o)
-            collect(oks[0]['rv']['ops'][0])
-            comp_ok = bool(leaves)
-            seen_fields = set()
-            for o in leaves:
-                suf = getattr(o, 'suffix', [])
-                if o.kind != 'arg' or ('as ' + variant) not in suf or 'as Ok' not in suf:
-                    comp_ok = False
+        def collect(op, depth=0):
+            os_ = origins(u, op, extra_identity=INTO)
+            for o in os_:
+                if o.kind == 'agg' and o.stmt['rv'].get('ak') == 'tuple' and depth < 4:
+                    for x in o.stmt['rv']['ops']:
+                        collect(x, depth + 1)
                 else:
-                    seen_fields.add(suf[-1].lstrip('.'))
-            comp_ok = comp_ok and seen_fields == resp_fields
-        rep.expect('R17.a', good and comp_ok, key, 'Ok(..) is built only from the fields %s of KeyValueResponse::%s' % (sorted(resp_fields), variant),
+                    leaves.append(o)
+        collect({'l': 0, 'p': ['as Ok', '.0']})
+        comp_ok = bool(leaves)
+        seen_fields = set()
+        for o in leaves:
+            suf = getattr(o, 'suffix', [])
+            if o.kind != 'arg' or o.n != 1 or ('as ' + variant) not in suf or 'as Ok' not in suf:
+                comp_ok = False
+            else:
+                seen_fields.add(suf[-1].lstrip('.'))
+        comp_ok = comp_ok and seen_fields == resp_fields
+        rep.expect('R17.a', comp_ok, key, 'Ok(..) is built only from the fields %s of KeyValueResponse::%s' % (sorted(resp_fields), variant),
                    '%s no longer builds its Ok value from the fields of KeyValueResponse::%s only' % (uname, variant))
-        err_ok = False
-        if len(errs) == 1:
-            srcs = origins(u, errs[0]['rv']['ops'][0], through_clone=True)
-            err_ok = bool(srcs) and all(o.kind == 'arg' and 'as Err' in o.suffix and o.suffix[-1] == '.error' for o in srcs)
+        srcs = origins(u, {'l': 0, 'p': ['as Err', '.0']}, through_clone=True)
+        err_ok = bool(srcs) and all(o.kind == 'arg' and o.n == 1 and 'as Err' in o.suffix and o.suffix[-1] == '.error' for o in srcs)
         rep.expect('R17.b', err_ok, key + '|error', 'Err(error) returns the shell\'s error (clone tabled)',
                    '%s no longer returns the error reported by the shell unchanged' % uname)
     # R17.c
